@@ -376,7 +376,7 @@ func (g *G) fnAttrsFor(group bool) []string {
 		out = append(out, a)
 	}
 	if g.chance("strattr", 1, 4) {
-		out = append(out, g.pick("sa", []string{"\"frame-pointer\"=\"all\"", "\"no-trapping-math\"=\"true\"", "\"k\"", "\"a b\"=\"c\\22d\""}))
+		out = append(out, g.pick("sa", []string{"\"frame-pointer\"=\"all\"", "\"no-trapping-math\"=\"true\"", "\"k\"", "\"a b\"=\"c\\22d\"", "\"goal%\"=\"50%\"", "\"fmt\"=\"%d of %s, 100%%\"", "\"%v\""}))
 	}
 	if g.chance("alignstack", 1, 10) {
 		if group {
@@ -798,6 +798,7 @@ func DrawNoise(rt *rapid.T) am.Noise {
 		InlineMD:        inl,
 		LeadingZeros:    rapid.IntRange(0, 3).Draw(rt, "n.leadingzeros") == 0,
 		EmptyQuoted:     rapid.IntRange(0, 4).Draw(rt, "n.emptyquoted") == 0,
+		OctalLookalikes: rapid.Bool().Draw(rt, "n.octallookalikes"),
 		AlwaysQuote:     rapid.IntRange(0, 3).Draw(rt, "n.quote") == 0,
 		EscapePrintable: rapid.IntRange(0, 3).Draw(rt, "n.escape") == 0,
 		Explicit:        rapid.Bool().Draw(rt, "n.explicit"),
